@@ -399,6 +399,18 @@ class HtmlToAst(HTMLParser):
         super().feed(source)
         return self.struct.outmost
 
+    def parse_marked_section(self, i: int, report: int = 1) -> int:
+        """Parse a ``<![...]>`` marked section.
+
+        The stdlib parser raises an ``AssertionError`` for unknown or malformed
+        section keywords (e.g. ``<![x]>``); as browsers do,
+        we treat these as bogus comments instead.
+        """
+        try:
+            return super().parse_marked_section(i, report)
+        except AssertionError:
+            return self.parse_bogus_comment(i)
+
     def handle_starttag(self, name: str, attr):
         """When found an opening tag then nest it onto the tree."""
         if name in self.void_elements:
